@@ -36,6 +36,8 @@ def run(ctx):
         inputs.append((0, LZMA_CONCATENATED, f, 'xz:' + d, hb))
         m, how = xzgen.mutate(rng, f)
         inputs.append((0, LZMA_CONCATENATED, m, 'xz-mutant:' + how + ':' + d, hb))
+        m, how = xzgen.mutate_chunk(rng, f)
+        inputs.append((0, LZMA_CONCATENATED, m, 'xz-mutant:' + how + ':' + d, hb))
         inputs.append((2, LZMA_CONCATENATED, f, 'auto-xz:' + d, hb))
     for p in sorted(glob.glob(os.path.join(REPO, 'tests/files/*'))):
         b = open(p, 'rb').read(); nm = os.path.basename(p)
@@ -60,6 +62,10 @@ def run(ctx):
         bad = bytearray(ix); bad[rng.randrange(len(bad))] ^= 1 << rng.randrange(8)
         inputs.append((7, 0, bytes(bad), 'index-damaged', False))
         inputs.append((7, 0, ix[:rng.randrange(len(ix))], 'index-truncated', False))
+    # corpus of recorded findings (known/): run first, classified by key
+    import json as _json
+    for kp in sorted(glob.glob(os.path.join(VERIF, 'known', 'C06-*.json'))):
+        kd = _json.load(open(kp)); inputs.append((0, kd.get('flags', 8), bytes.fromhex(kd['file']), 'known:' + kd['label'], True))
     jobs = []   # (input index, mode, seed)
     for idx, (k, fl, b, lab, hb) in enumerate(inputs):
         jobs += [(idx, 0, 0), (idx, 1, 0), (idx, 2, 0), (idx, 3, rng.randrange(1 << 20)), (idx, 3, rng.randrange(1 << 20))]
@@ -85,7 +91,9 @@ def run(ctx):
         distinct.add((k, m, lab.split(':')[0], base[i][0] if base[i] else None, min(s, 64) if m == 4 else 0))
         why = cmp_runs(base[i], r, hb)
         if why:
-            viol.append(dict(kind='decoder-slicing', coder=k, flags=fl, label=lab, mode=m, seed=s, why=why, file=b.hex(),
+            # recorded finding: rejected input behind a BCJ filter, same status (LZMA_DATA_ERROR) and output, only total_in differs
+            kkey = 'bcj-invalid-consumed' if (hb and why.startswith('input consumed') and base[i] and r and base[i][0] == 9 and r[0] == 9 and base[i][2] == r[2]) else None
+            viol.append(dict(kind='decoder-slicing', coder=k, flags=fl, label=lab, mode=m, seed=s, why=why, file=b.hex(), key=kkey,
                              oneshot=list(base[i][:4]) if base[i] else None, sliced=list(r[:4]) if r else None))
     # ---------------- encoders
     datas = [xzgen.gen_data(rng, n) for n in ([0, 1, 100, 5000, 70000] if ctx.quick() else [0, 1, 2, 100, 5000, 70000, 300000, 1 << 20])]
@@ -143,16 +151,13 @@ def run(ctx):
     ctx.cov['input_distribution'] = dict(decoder_inputs=len(inputs), decoder_runs=len(jobs), encoder_runs=len(elines))
     ctx.cov['samples'] = [lines[3][:120], elines[2][:120]]
     if viol:
-        v = min(viol, key=lambda x: len(x['file']))
-        key = None
-        if v['kind'] == 'decoder-slicing' and v['coder'] in (2, 3) and 'lzma' in v['label']:
-            key = 'lzma-known-size-eopm-split'
-        ctx.violation('C06 %s: %s [%s]' % (v['kind'], v['why'], v.get('label', v.get('config'))), v, key=key)
-        # report other, differently-classified violations too
-        for v2 in viol:
-            k2 = 'lzma-known-size-eopm-split' if (v2['kind'] == 'decoder-slicing' and v2['coder'] in (2, 3) and 'lzma' in v2['label']) else None
-            if k2 != key:
-                ctx.violation('C06 %s: %s [%s]' % (v2['kind'], v2['why'], v2.get('label', v2.get('config'))), v2, key=k2); break
+        # one report per class: unclassified violations and each recorded finding (known_findings.json) separately
+        byk = {}
+        for v in viol:
+            byk.setdefault(v.get('key'), []).append(v)
+        for kk, vs in byk.items():
+            v = min(vs, key=lambda x: len(x['file']))
+            ctx.violation('C06 %s: %s [%s]' % (v['kind'], v['why'], v.get('label', v.get('config'))), v, key=kk)
     if not res['ok'] and not viol:
         ctx.violation('proof obligation of Properties_C06 no longer checks (%s)' % res['failing'],
                       {'theorem_file': 'coq/Properties_C06.v', 'failing': res['failing'], 'log_tail': res['log'][-3000:]}, found_input=False)
